@@ -20,6 +20,7 @@ import (
 	"github.com/segmentio/kafka-go/protocol/listoffsets"
 	"github.com/segmentio/kafka-go/protocol/metadata"
 	"github.com/segmentio/kafka-go/protocol/offsetfetch"
+	"github.com/segmentio/kafka-go/protocol/produce"
 )
 
 // Cut modes of an Action.
@@ -43,6 +44,7 @@ type Action struct {
 	Drop    bool          // never answer
 	ErrCode int16         // answer with this Kafka error code
 	Dup     bool          // write the answer frame twice
+	Once    bool          // the action applies to the FIRST request with this tag only (the script entry is then removed)
 	Late    int           // answer LATE: only once Late later requests have arrived on the same conn (or the conn died, or LateMax passed)
 	Cut     int           // CutNone / CutBefore / CutMid / CutAfter / CutAt / CutSilent
 	CutK    int           // for CutAt / CutSilent: number of bytes written (or CutKLast / CutKMid)
@@ -147,6 +149,9 @@ type Broker struct {
 	splitTopic string
 	nParts     int
 	qas        []QA // every (question, answer) pair this broker produced for the split topic / list groups
+
+	produced []string     // values of the records received in produce requests
+	pending  []pendingReq // every decoded request (for AnswerAgain)
 
 	// records mode (op trpage): fetch answers with real record batches, per topic
 	records map[string][]RecSpec
@@ -277,6 +282,14 @@ func (b *Broker) Dial(ctx context.Context, network, address string) (net.Conn, e
 	return cl, nil
 }
 
+type pendingReq struct {
+	conn int
+	tag  string
+	ver  int16
+	corr int32
+	msg  protocol.Message
+}
+
 // RecSpec describes one record of a scripted fetch answer: the value is ValueLen copies of the
 // topic's last byte; KeyMode 0 = nil key, 1 = empty non-nil key, 2 = key of KeyLen copies of that byte.
 type RecSpec struct {
@@ -292,7 +305,50 @@ func (b *Broker) SetRecords(m map[string][]RecSpec) {
 	b.mu.Unlock()
 }
 
+// AnswerAgain answers the most recent journaled request with the given tag on connection conn
+// (one whose scripted answer was dropped) with action act, synchronously; it returns the
+// number of bytes written and the frame length for CutAt / CutSilent actions.
+func (b *Broker) AnswerAgain(conn int, tag string, act Action) (k, n int) {
+	b.mu.Lock()
+	var c *bconn
+	if conn >= 0 && conn < len(b.conns) {
+		c = b.conns[conn]
+	}
+	var q *pendingReq
+	for i := len(b.pending) - 1; i >= 0; i-- {
+		if b.pending[i].conn == conn && b.pending[i].tag == tag {
+			q = &b.pending[i]
+			break
+		}
+	}
+	b.mu.Unlock()
+	if c == nil || q == nil {
+		return 0, 0
+	}
+	b.answer(c, q.ver, q.corr, q.msg, tag, act, nil, 0, 0)
+	k, n, _ = b.CutOf(tag)
+	return k, n
+}
+
+// Produced returns the values of all records received in produce requests so far.
+func (b *Broker) Produced() []string {
+	b.mu.Lock()
+	defer b.mu.Unlock()
+	return append([]string(nil), b.produced...)
+}
+
 func (b *Broker) recordsAnswer(msg protocol.Message) protocol.Message {
+	if pr, ok := msg.(*produce.Request); ok {
+		r := &produce.Response{}
+		for _, t := range pr.Topics {
+			rt := produce.ResponseTopic{Topic: t.Topic}
+			for _, pp := range t.Partitions {
+				rt.Partitions = append(rt.Partitions, produce.ResponsePartition{Partition: pp.Partition, BaseOffset: 0, LogAppendTime: -1})
+			}
+			r.Topics = append(r.Topics, rt)
+		}
+		return r
+	}
 	m, ok := msg.(*fetch.Request)
 	if !ok || len(m.Topics) == 0 {
 		return nil
@@ -454,7 +510,30 @@ func (b *Broker) serve(c *bconn) {
 		b.mu.Lock()
 		b.seq++
 		b.reqs = append(b.reqs, Req{Conn: c.idx, Corr: corr, Key: int16(msg.ApiKey()), Ver: ver, Tag: tag, Seq: b.seq})
+		b.pending = append(b.pending, pendingReq{c.idx, tag, ver, corr, msg})
 		act, scripted := b.script[tag]
+		if scripted && act.Once {
+			delete(b.script, tag)
+		}
+		if pr, ok := msg.(*produce.Request); ok {
+			// the log: every record value the broker received in a produce request (the
+			// request is applied when it is received, DESIGN.md 2.3)
+			for _, t := range pr.Topics {
+				for _, pp := range t.Partitions {
+					if pp.RecordSet.Records == nil {
+						continue
+					}
+					for {
+						rec, err := pp.RecordSet.Records.ReadRecord()
+						if err != nil {
+							break
+						}
+						v, _ := protocol.ReadAll(rec.Value)
+						b.produced = append(b.produced, string(v))
+					}
+				}
+			}
+		}
 		var gate chan struct{}
 		if scripted && b.gateCh != nil {
 			gate = b.gateCh
@@ -665,6 +744,8 @@ func TagOf(msg protocol.Message) string {
 		return "lo:"
 	case *findcoordinator.Request:
 		return "fc:" + m.Key
+	case *produce.Request:
+		return "pr"
 	case *listgroups.Request:
 		return "lg"
 	case *offsetfetch.Request:
